@@ -25,9 +25,12 @@ THR = [0.3, 0.75, 0.925]
 
 @st.composite
 def correlation(draw):
-    kind = draw(st.sampled_from(["uniform", "uniform", "threshold", "threshold", "high", "high", "small"]))
+    kind = draw(st.sampled_from(["uniform", "uniform", "threshold", "threshold", "high", "high", "small", "band"]))
     if kind == "uniform":
         return draw(finite(-0.999, 0.999))
+    if kind == "band":
+        lo, hi = draw(st.sampled_from([(0.3, 0.75), (0.75, 0.925), (0.75, 0.925), (0.925, 0.999)]))
+        return draw(st.sampled_from([1.0, -1.0])) * draw(finite(lo, hi))
     if kind == "small":
         return draw(st.one_of(finite(-0.3, 0.3), st.sampled_from([1e-3, -1e-3, 1e-5, -1e-5, 0.01, -0.05])))
     sign = draw(st.sampled_from([1.0, -1.0]))
@@ -315,7 +318,7 @@ def VALID_DEFAULT(case):
     return True
 
 
-_floors = {"|r|<0.3": 0.1, "|r|<0.75": 0.1, "|r|<0.925": 0.1, "|r|>=0.925": 0.1, "near_threshold": 0.05}
+_floors = {"|r|<0.3": 0.08, "|r|<0.75": 0.08, "|r|<0.925": 0.08, "|r|>=0.925": 0.08, "near_threshold": 0.05}
 
 CLAUSES = [
     Clause("accuracy", cov_case(far=False), check_accuracy, quick=6000, thorough=100000, floors=_floors,
